@@ -125,3 +125,45 @@ def batch(ex, ec, size):
     except (BTClibValueError, BTClibRuntimeError):
         ok = False
     return {"batch_of_valid_members_accepted": ok}
+
+
+# ------------------------------------------------------------------ the signature against a transcription of BIP340's verification
+import hashlib
+
+
+def _tagged(tag, data):
+    t = hashlib.sha256(tag).digest()
+    return hashlib.sha256(t + t + data).digest()
+
+
+@ob("C03", "signature_satisfies_the_bip340_equation_under_a_transcribed_challenge", quick=[dict(ec="ec251_257", qmax=8)], thorough=[dict(ec="ec251_257", qmax=256), dict(ec="ec23_19", qmax=18), dict(ec="ec19_23", qmax=22)],
+    bound="private key q in 1..qmax (quick 8; thorough n-1), one symbolic message byte, 32 symbolic bytes of auxiliary randomness, nonce rejection loop unrolled twice; the curve of the quick tier has an order one octet "
+          "longer than its field (as secp160k1 / secp224k1 have): s*G = R + e*P with e = int(TaggedHash('BIP0340/challenge', bytes(r) || bytes(x_P) || m)) mod n, field elements written on the field's size, "
+          "computed by the harness' own transcription (hash = the same uninterpreted function)",
+    stubs=_STUBS + ["the reduction of the 256-bit digest to the curve's bit length is the library's documented generalisation (leftmost nlen bits, then mod n)"],
+    functions=["btclib.ecc.ssa.sign_", "btclib.ecc.ssa.challenge_"], outside=["the nonce derivation's byte layout (any nonce gives a valid signature)"], timeout=1500, weight=6, query_timeout_ms=300000)
+def sig_vs_transcription(ex, ec, qmax):
+    name = ec
+    ec = toy.curve(name)
+    g = toy.install_group_oracle(ex, name)
+    _bound_rejection_loops(ex)
+    n = ec.n
+    q = ex.int("q", 1, qmax)
+    msg = ex.bytes("m", 1)
+    aux = ex.bytes("aux", 32)
+    try:
+        sig = ssa.sign_(msg, q, aux, ec, verify=False)
+    except BTClibRuntimeError:
+        return ex.refuse("BTClibRuntimeError")
+    Qd = g.mul_idx(q, g.g)
+    x_P = g.xs[Qd]
+    Pd = ite(g.ys[Qd] % 2 == 0, Qd, g.neg_idx(Qd))          # lift_x: the even-y point
+    even = [-1] * ec.p                                       # dlog of the even-y point with that x-coordinate (-1: no such point)
+    for d_, (x_, y_) in enumerate(zip(g.xs, g.ys)):
+        if d_ and y_ % 2 == 0:
+            even[x_] = d_
+    Rd = even[sig.r]
+    digest = _tagged(b"BIP0340/challenge", sig.r.to_bytes(ec.p_size, "big") + x_P.to_bytes(ec.p_size, "big") + msg)
+    e = (int.from_bytes(digest, "big") >> (256 - ec.nlen)) % n
+    return {"r_is_x_of_an_even_y_point": Rd >= 0,
+            "bip340_equation_holds": g.mul_idx(sig.s, g.g) == g.add_idx(Rd, g.mul_idx(e, Pd))}
